@@ -1314,7 +1314,8 @@ class Parser:
             elif isinstance(err, SyntaxError):
                 message = str(err.msg)
                 declared = [i for i, line in enumerate(head) if re.search(rb"coding[:=]", line)]
-                at = sum(len(line) + 1 for line in head[: declared[-1]]) if declared else 0
+                ends = [m.end() for m in re.finditer(rb"\r\n|\r|\n", data)]  # (a line end may be two bytes long)
+                at = ends[declared[-1] - 1] if declared and declared[-1] and len(ends) >= declared[-1] else 0
             else:
                 message = f"encoding problem: {err}"
             before = re.split(rb"\r\n|\r|\n", data[:at])
